@@ -174,7 +174,7 @@ def shard(tier, seed, n, which):
 
 def run(tier, seed):
     t0 = time.time()
-    total = 2000 if tier == 'quick' else 60000
+    total = 4800 if tier == 'quick' else 60000
     seeds = common.shard_seeds(seed, common.NPROC)
     jobs = [dict(tier=tier, seed=s, n=total // len(seeds), which='echo' if i % 3 == 0 else 'timing') for i, s in enumerate(seeds)]
     stats = common.run_shards(__name__, 'shard', jobs)
